@@ -99,6 +99,34 @@ class IntVec:
             return self.at(idx)
         raise U("IntVec index", node)
 
+    def sx_compare(self, ex, op, other, node, reflected):
+        if isinstance(other, int) and not isinstance(other, bool) and not reflected:
+            f = {"Lt": lambda a: a < other, "Eq": lambda a: a == other, "Gt": lambda a: a > other,
+                 "LtE": lambda a: a <= other, "GtE": lambda a: a >= other, "NotEq": lambda a: a != other}.get(op)
+            if f is not None:
+                from .polymodel import BoolVec
+                at = self.at
+                return BoolVec(self.n, lambda k: f(at(k)))
+        return NotImplemented
+
+    def sx_binop(self, ex, op, other, node, reflected):
+        if op in ("Add", "Sub") and isinstance(other, int) and not isinstance(other, bool) and not reflected:
+            k = other if op == "Add" else -other
+            at = self.at
+            from .polymodel import dt_uint32
+            from .logic import simplify_bool
+            if getattr(self, "dtype", None) is not None and simplify_bool(self.dtype == dt_uint32) is True:
+                # unsigned 32-bit arithmetic wraps around
+                # (in-range case spelled out so that the solver meets `mod` only when a wrap is possible)
+                out = IntVec(self.n, lambda t: z3.If(z3.And(at(t) + k >= 0, at(t) + k < 2 ** 32), at(t) + k, (at(t) + k) % (2 ** 32)))
+            elif getattr(self, "dtype", None) is None:
+                out = IntVec(self.n, lambda t: at(t) + k)
+            else:
+                raise U("integer vector arithmetic in an unknown dtype", node)
+            out.dtype = getattr(self, "dtype", None)
+            return out
+        return NotImplemented
+
 
 class KeyMat:
     """2-d integer array with D rows and n columns; column c is the Mono col(c)."""
